@@ -16,8 +16,23 @@ def _alarm(signum, frame):
     raise CaseTimeout()
 
 
+def _die_with_parent():
+    # a worker must not outlive the runner that collects its output (killed runner, shard timeout)
+    try:
+        import ctypes
+        ctypes.CDLL("libc.so.6", use_errno=True).prctl(1, signal.SIGKILL)   # PR_SET_PDEATHSIG
+    except Exception:
+        pass
+
+
+def _arm(seconds):
+    # re-fires every 20 s after the first expiry: a handler somewhere that swallows the first CaseTimeout does not disarm the watchdog
+    signal.setitimer(signal.ITIMER_REAL, seconds, 20.0 if seconds else 0.0)
+
+
 def main():
     shard_path, out_path = sys.argv[1], sys.argv[2]
+    _die_with_parent()
     warnings.simplefilter("ignore")
     from vf import core
     core.activate_repo()
@@ -39,14 +54,14 @@ def main():
         for spec in shard["cases"]:
             t0 = time.time()
             rec = None
-            signal.alarm(case_timeout)
+            _arm(case_timeout)
             try:
                 rec = mod.run_case(spec)
-                signal.alarm(0)
+                _arm(0)
             except CaseTimeout:
                 rec = {"timeout": True}
             except BaseException as e:  # noqa
-                signal.alarm(0)
+                _arm(0)
                 if isinstance(getattr(e, "__cause__", None), CaseTimeout):
                     out.write(core.dumps({"timeout": True, "case_id": spec.get("case_id"), "spec": spec, "violations": []}) + "\n")
                     out.flush()
@@ -62,7 +77,7 @@ def main():
                 else:
                     rec = {"harness_error": txt[-2000:]}
             finally:
-                signal.alarm(0)
+                _arm(0)
             rec.setdefault("violations", [])
             rec["case_id"] = spec.get("case_id")
             rec["spec"] = spec
